@@ -96,7 +96,17 @@ def _arm(spec):
         _FAULT["installed"] = True
 
 
-@strax.takes_config(strax.Option("mp_fault", default=None, track=False))
+class MpInjected(ValueError):
+    """Failure injected into a plugin computation that runs in a pool worker process."""
+
+
+def _maybe_fail(plugin, name, start):
+    f = plugin.config.get("mp_fail")
+    if f and f["plugin"] == name and f["start"] == start:
+        raise MpInjected(f"injected failure in {name} at chunk starting at {start} (pool worker process)")
+
+
+@strax.takes_config(strax.Option("mp_fault", default=None, track=False), strax.Option("mp_fail", default=None, track=False))
 class MpRow(strax.Plugin):
     provides = "mprow"
     depends_on = ("mpsrc",)
@@ -105,13 +115,15 @@ class MpRow(strax.Plugin):
     parallel = "process"
     rechunk_on_save = False
 
-    def compute(self, mpk):
+    def compute(self, mpk, start, end):
         _arm(self.config["mp_fault"])
+        _maybe_fail(self, "mprow", start)
         r = mpk.copy()
         r["v0"] = mpk["v0"] * 3 + 1
         return r
 
 
+@strax.takes_config(strax.Option("mp_fail", default=None, track=False))
 class MpMulti(strax.Plugin):
     provides = ("mpma", "mpmb")
     depends_on = ("mprow",)
@@ -121,12 +133,14 @@ class MpMulti(strax.Plugin):
     rechunk_on_save = immutabledict(mpma=False, mpmb=False)
     save_when = immutabledict(mpma=strax.SaveWhen.ALWAYS, mpmb=strax.SaveWhen.ALWAYS)
 
-    def compute(self, mpk):
+    def compute(self, mpk, start, end):
+        _maybe_fail(self, "mpmulti", start)
         a = mpk.copy()
         a["v0"] = mpk["v0"] * 5 + 1
         return dict(mpma=a, mpmb=mpk[mpk["v0"] % 2 == 0])
 
 
+@strax.takes_config(strax.Option("mp_fail", default=None, track=False))
 class MpTop(strax.Plugin):
     provides = "mptop"
     depends_on = ("mpma",)
@@ -135,7 +149,8 @@ class MpTop(strax.Plugin):
     parallel = "process"
     rechunk_on_save = False
 
-    def compute(self, mpk):
+    def compute(self, mpk, start, end):
+        _maybe_fail(self, "mptop", start)
         r = mpk.copy()
         r["v0"] = mpk["v0"] * 3 + 2
         return r
